@@ -72,14 +72,14 @@ package sm2
 
 // ---- identity hash ZA and the id-/message-level entry points (C13) ----
 //@ global_fact zBytes: len(zBytes) == 128
-//@ define hs2(h, a, b) = hs_app(hs_app(h, a, len(a)), b, len(b))
-//@ define za_stream(id, px, py) = hs2(hs_app(hs_app(hs_app(hs_empty(), bytes(((len(id) * 8) / 256) % 256, (len(id) * 8) % 256), 2), id, len(id)), zBytes, len(zBytes)), px, py)
+//@ define za_stream(id, px, py) = hsapp(hsapp(hsapp(hsapp(hsapp(hs_empty(), bytes(((len(id) * 8) / 256) % 256, (len(id) * 8) % 256)), id), zBytes), px), py)
 //@ define bedigest(h) = digestbyte(h,0)*pow2(248) + digestbyte(h,1)*pow2(240) + digestbyte(h,2)*pow2(232) + digestbyte(h,3)*pow2(224) + digestbyte(h,4)*pow2(216) + digestbyte(h,5)*pow2(208) + digestbyte(h,6)*pow2(200) + digestbyte(h,7)*pow2(192) + digestbyte(h,8)*pow2(184) + digestbyte(h,9)*pow2(176) + digestbyte(h,10)*pow2(168) + digestbyte(h,11)*pow2(160) + digestbyte(h,12)*pow2(152) + digestbyte(h,13)*pow2(144) + digestbyte(h,14)*pow2(136) + digestbyte(h,15)*pow2(128) + digestbyte(h,16)*pow2(120) + digestbyte(h,17)*pow2(112) + digestbyte(h,18)*pow2(104) + digestbyte(h,19)*pow2(96) + digestbyte(h,20)*pow2(88) + digestbyte(h,21)*pow2(80) + digestbyte(h,22)*pow2(72) + digestbyte(h,23)*pow2(64) + digestbyte(h,24)*pow2(56) + digestbyte(h,25)*pow2(48) + digestbyte(h,26)*pow2(40) + digestbyte(h,27)*pow2(32) + digestbyte(h,28)*pow2(24) + digestbyte(h,29)*pow2(16) + digestbyte(h,30)*pow2(8) + digestbyte(h,31)
 
 //@ func sm2.ZA
 //@ mode int
-//@ ensures toolong: len(id) >= 8192 ==> nonnil(err) && za == nil
-//@ ensures ok: len(id) < 8192 ==> !nonnil(err) && len(za) == 32 && forall(i, 0, 32, za[i] == digestbyte(za_stream(id, pubx, puby), i))
+//@ ensures toolong: (len(id) >= 8192) == nonnil(err)
+//@ ensures fail: nonnil(err) ==> za == nil
+//@ ensures ok: !nonnil(err) ==> len(za) == 32 && forall(i, 0, 32, za[i] == digestbyte(za_stream(id, pubx, puby), i))
 //@ assigns nothing
 
 // ---- signing (C02, C19) ----
@@ -113,3 +113,36 @@ package sm2
 //@ modifies rdidx
 //@ invariant idx: old(rdidx) <= rdidx
 //@ invariant rej: forall(j, old(rdidx), rdidx, rejected(be(priv), be(e), draw(j)))
+
+// ---- id-/message-level entry points: exactly the digest-level functions on e = SM3(ZA || M) ----
+//@ define e_stream(za, msg) = hsapp(hsapp(hs_empty(), za), msg)
+// e for the id-level entry points: the ZA piece is the 32-byte digest of za_stream, identified by its value
+//@ define e_stream_id(id, px, py, msg) = hsapp(hs_appv(hs_empty(), bedigest(za_stream(id, px, py)), 32), msg)
+
+//@ func sm2.SignZa
+//@ mode int
+//@ ensures badkey: !(len(priv) <= 32 && 1 <= be(priv) && be(priv) <= N - 2) ==> nonnil(err) && rdidx == old(rdidx)
+//@ ensures drawn: !nonnil(err) ==> old(rdidx) < rdidx && 1 <= draw(rdidx - 1) && draw(rdidx - 1) < N
+//@ ensures skipped: !nonnil(err) ==> forall(j, old(rdidx), rdidx - 1, rejected(be(priv), bedigest(e_stream(za, msg)), draw(j)))
+//@ ensures val: !nonnil(err) ==> len(r) == 32 && len(s) == 32 && be(r) == std_r(bedigest(e_stream(za, msg)), draw(rdidx - 1)) && be(s) == std_s(be(priv), bedigest(e_stream(za, msg)), draw(rdidx - 1))
+//@ ensures fail: nonnil(err) ==> r == nil && s == nil
+
+//@ func sm2.VerifyZa
+//@ mode int
+//@ ensures iff: result0 == (len(pubx) == 32 && len(puby) == 32 && len(r) == 32 && len(s) == 32 && std_verify(be(pubx), be(puby), bedigest(e_stream(za, msg)), be(r), be(s)))
+//@ ensures err: result0 ==> !nonnil(result1)
+
+//@ func sm2.Sign
+//@ mode int
+//@ ensures toolong: len(id) >= 8192 ==> nonnil(err) && r == nil && s == nil && rdidx == old(rdidx)
+//@ ensures badkey: !(len(priv) <= 32 && 1 <= be(priv) && be(priv) <= N - 2) ==> nonnil(err) && rdidx == old(rdidx)
+//@ ensures drawn: !nonnil(err) ==> old(rdidx) < rdidx && 1 <= draw(rdidx - 1) && draw(rdidx - 1) < N
+//@ ensures skipped: !nonnil(err) ==> forall(j, old(rdidx), rdidx - 1, rejected(be(priv), bedigest(e_stream_id(id, pubx, puby, msg)), draw(j)))
+//@ ensures val: !nonnil(err) ==> len(r) == 32 && len(s) == 32 && be(r) == std_r(bedigest(e_stream_id(id, pubx, puby, msg)), draw(rdidx - 1)) && be(s) == std_s(be(priv), bedigest(e_stream_id(id, pubx, puby, msg)), draw(rdidx - 1))
+//@ ensures fail: nonnil(err) ==> r == nil && s == nil
+
+//@ func sm2.Verify
+//@ mode int
+//@ ensures toolong: len(id) >= 8192 ==> !result0 && nonnil(result1)
+//@ ensures iff: len(id) < 8192 ==> result0 == (len(pubx) == 32 && len(puby) == 32 && len(r) == 32 && len(s) == 32 && std_verify(be(pubx), be(puby), bedigest(e_stream_id(id, pubx, puby, msg)), be(r), be(s)))
+//@ ensures err: result0 ==> !nonnil(result1)
